@@ -75,6 +75,12 @@ type c20Evil struct{ msg string }
 
 func (e *c20Evil) Error() string { return e.msg }
 
+// c20NilSafe is an error type whose methods work on a nil pointer: a marshaler that ends in
+// "var e *c20NilSafe; return data, e" returns a non-nil error (err != nil holds) whose dynamic value is nil.
+type c20NilSafe struct{}
+
+func (e *c20NilSafe) Error() string { return c20ErrText(0) }
+
 // marshal behaviours: 0 right data; 1 error; 2 error together with data; 3 panic; 4 wrapped error; 5 panic with a value whose Error method panics.
 // The unmarshal behaviour travelling inside the data is always 0 for marshalled output.
 func c20Marshal(id, mbeh int) ([]byte, error) {
@@ -90,6 +96,9 @@ func c20Marshal(id, mbeh int) ([]byte, error) {
 	case 5:
 		var e *c20Evil
 		panic(error(e))
+	case 6: // right data together with a non-nil error interface holding a nil pointer
+		var e *c20NilSafe
+		return []byte(c20Data(id, mbeh, 0)), e
 	}
 	panic(fmt.Sprintf("kaboom %d", id))
 }
@@ -123,6 +132,11 @@ func c20Unmarshal(data []byte) (id, mbeh int, set bool, err error) {
 	case 6:
 		var e *c20Evil
 		panic(error(e))
+	case 7: // the right identity, but the second field differs: only a full comparison of the value sees it
+		return id, mbeh + 100, true, nil
+	case 8: // nothing set, and a non-nil error interface holding a nil pointer
+		var e *c20NilSafe
+		return 0, 0, false, e
 	}
 	panic(fmt.Sprintf("kaboom %d", id))
 }
@@ -161,6 +175,27 @@ func (s *SP) UnmarshalText(data []byte) error   { return s.unmarshal(data) }
 func (s *SP) UnmarshalBinary(data []byte) error { return s.unmarshal(data) }
 func (s *SP) UnmarshalJSON(data []byte) error   { return s.unmarshal(data) }
 
+// SE describes itself loosely: its Equal, Compare and String look at the identity only. A helper
+// must compare the whole value all the same (T = SE, Marshal* on the value, Unmarshal* on the pointer).
+type SE struct{ ID, MBeh int }
+
+func (s SE) Equal(o SE) bool              { return s.ID == o.ID }
+func (s SE) Compare(o SE) int             { return s.ID - o.ID }
+func (s SE) String() string               { return fmt.Sprintf("SE#%d", s.ID) }
+func (s SE) MarshalText() ([]byte, error)   { return c20Marshal(s.ID, s.MBeh) }
+func (s SE) MarshalBinary() ([]byte, error) { return c20Marshal(s.ID, s.MBeh) }
+func (s SE) MarshalJSON() ([]byte, error)   { return c20Marshal(s.ID, s.MBeh) }
+func (s *SE) unmarshal(data []byte) error {
+	id, mb, set, err := c20Unmarshal(data)
+	if set {
+		s.ID, s.MBeh = id, mb
+	}
+	return err
+}
+func (s *SE) UnmarshalText(data []byte) error   { return s.unmarshal(data) }
+func (s *SE) UnmarshalBinary(data []byte) error { return s.unmarshal(data) }
+func (s *SE) UnmarshalJSON(data []byte) error   { return s.unmarshal(data) }
+
 // TextOnly implements only the text interfaces, JSONOnly only the JSON ones, and Mixed has
 // its text methods on the value receiver and its JSON/binary unmarshalers on the pointer receiver.
 type TextOnly struct{ ID, MBeh int }
@@ -197,10 +232,10 @@ func (s *BinaryOnly) UnmarshalBinary(data []byte) error {
 }
 
 // c20Implements: does scripted type typ implement the interface helper h needs?
-// types: 0 SV, 1 *SP, 2 NoIface, 3 TextOnly, 4 JSONOnly, 5 *BinaryOnly
+// types: 0 SV, 1 *SP, 2 NoIface, 3 TextOnly, 4 JSONOnly, 5 *BinaryOnly, 6 SE
 func c20Implements(typ, helper int) bool {
 	switch typ {
-	case 0, 1:
+	case 0, 1, 6:
 		return true
 	case 3:
 		return helper/2 == 0
@@ -217,8 +252,8 @@ func c20Implements(typ, helper int) bool {
 type c20Spec struct {
 	Constraint int  // 0 both, 1 OnlyMarshal, 2 OnlyUnmarshal
 	ID         int  // payload identity
-	MBeh       int  // 0..3
-	UBeh       int  // 0..4
+	MBeh       int  // 0..6 (see c20Marshal)
+	UBeh       int  // 0..8 (see c20Unmarshal)
 	DataRight  bool // marshal: expected Data equals the marshaler's output
 	ValueRight bool // unmarshal: expected Value equals what the unmarshaler sets for behaviour 0
 	ErrKind    int  // 0 none, 1 AnyError, 2 Error(exact), 3 Error(other), 4 prefix hit, 5 prefix miss, 6 suffix hit, 7 suffix miss, 8 match hit, 9 match miss, 10 invalid pattern
@@ -345,12 +380,15 @@ func c20JudgeCase(s c20Spec, marshalDir bool) (applicable bool, j c20Judgement) 
 	if marshalDir && s.MBeh == 4 || !marshalDir && s.UBeh == 5 {
 		errText = "outer layer: " + errText
 	}
+	if marshalDir && s.MBeh == 6 || !marshalDir && s.UBeh == 8 {
+		errText = c20ErrText(0) // the nil-pointer error knows no identity
+	}
 	if marshalDir {
-		panics, hasErr, hasResult = s.MBeh == 3 || s.MBeh == 5, s.MBeh == 1 || s.MBeh == 2 || s.MBeh == 4, s.MBeh == 0 || s.MBeh == 2
+		panics, hasErr, hasResult = s.MBeh == 3 || s.MBeh == 5, s.MBeh == 1 || s.MBeh == 2 || s.MBeh == 4 || s.MBeh == 6, s.MBeh == 0 || s.MBeh == 2 || s.MBeh == 6
 		// what the marshaler writes is c20Data(ID, MBeh, 0); the case expects c20ExpectedData
 		rightResult = s.DataRight && s.ValueRight && s.UBeh == 0
 	} else {
-		panics, hasErr, hasResult = s.UBeh == 4 || s.UBeh == 6, s.UBeh == 2 || s.UBeh == 3 || s.UBeh == 5, s.UBeh == 0 || s.UBeh == 1 || s.UBeh == 3
+		panics, hasErr, hasResult = s.UBeh == 4 || s.UBeh == 6, s.UBeh == 2 || s.UBeh == 3 || s.UBeh == 5 || s.UBeh == 8, s.UBeh == 0 || s.UBeh == 1 || s.UBeh == 3 || s.UBeh == 7
 		rightResult = s.UBeh == 0 && s.ValueRight
 	}
 	if s.ErrKind != 0 {
@@ -552,6 +590,13 @@ func c20RunList(w *rt.W, helper, typ int, withHelper bool, specs []c20Spec) c20L
 				}
 				return &SP{ID: c20ExpID(s), MBeh: s.MBeh}
 			}, func() *SP { return &SP{} })
+		case 6:
+			c20Invoke(t, helper, withHelper, specs, func(s c20Spec) SE {
+				if marshalDir || s.Constraint == 1 {
+					return SE{ID: c20MarID(s), MBeh: s.MBeh}
+				}
+				return SE{ID: c20ExpID(s), MBeh: s.MBeh}
+			}, func() SE { return SE{} })
 		case 3:
 			c20Invoke(t, helper, withHelper, specs, func(s c20Spec) TextOnly {
 				if marshalDir || s.Constraint == 1 {
@@ -637,13 +682,13 @@ func c20GenSpec(r *rt.Rand, id int) c20Spec {
 	// most cases satisfied, each defect introduced with moderate probability so single-defect lists are common
 	switch r.Intn(10) {
 	case 0:
-		s.MBeh = 1 + r.Intn(5)
+		s.MBeh = 1 + r.Intn(6)
 	case 1:
 		s.DataRight = false
 	}
 	switch r.Intn(10) {
 	case 0:
-		s.UBeh = 1 + r.Intn(6)
+		s.UBeh = 1 + r.Intn(8)
 	case 1:
 		s.ValueRight = false
 	}
@@ -653,7 +698,7 @@ func c20GenSpec(r *rt.Rand, id int) c20Spec {
 		s.MBeh, s.UBeh = 1, 2
 	case 1: // expects an error with an arbitrary predicate and arbitrary behaviour
 		s.ErrKind = 1 + r.Intn(10)
-		s.MBeh, s.UBeh = r.Intn(6), r.Intn(7)
+		s.MBeh, s.UBeh = r.Intn(7), r.Intn(9)
 	case 2: // expects the plain text and gets an error that only wraps it
 		s.ErrKind = []int{2, 4, 6, 8, 1}[r.Intn(5)]
 		s.MBeh, s.UBeh = 4, 5
@@ -678,7 +723,7 @@ func c20GenSpec(r *rt.Rand, id int) c20Spec {
 
 func runC20(c *rt.Ctx) {
 	nLists := c.Pick(60000, 3000000)
-	c.SetRule(fmt.Sprintf("%d seeded case lists of length 0..6 over scripted types (value type with pointer-receiver Unmarshal*, pointer type, type lacking the interfaces) whose Marshal*/Unmarshal* behave per the payload (right data, wrong data, error, error with data/value, panic); ", nLists) +
+	c.SetRule(fmt.Sprintf("%d seeded case lists of length 0..6 over scripted types (value type with pointer-receiver Unmarshal*, pointer type, type lacking the interfaces) whose Marshal*/Unmarshal* behave per the payload (right data, wrong data, a value that differs in one field only, error, wrapped error, non-nil error holding a nil pointer, error with data/value, panic); a type whose own Equal/Compare/String look at part of the value only; ", nLists) +
 		"cases vary constraint, expected data/value right or wrong, eleven error-predicate variants (AnyError, Error exact/other, prefix/suffix hit/miss, regexp hit/miss/invalid), Before/After hooks (nil, pass, error, panic), nil pointer values, with and without a TypeHelper; each list is run whole and case by case through all six helpers with a recording TestingT whose FailNow does not unwind, inside a panic guard. " +
 		"distinct_nontrivial counts distinct (helper, type, list) runs (by hash) in which exactly one condition is unmet")
 	c.Assume("oracle is an independent re-statement of the helper contract (harness c20JudgeCase/c20JudgeList); testify's ObjectsAreEqual/Empty semantics are avoided by never generating empty payloads")
@@ -704,13 +749,21 @@ func runC20(c *rt.Ctx) {
 			for k := range specs {
 				specs[k] = c20GenSpec(r, 1+r.Intn(900))
 			}
-			typ := []int{0, 0, 0, 1, 1, 2, 3, 4, 5}[r.Intn(9)]
+			typ := []int{0, 0, 0, 1, 1, 2, 3, 4, 5, 6, 6}[r.Intn(11)]
 			if typ != 1 {
 				for k := range specs {
 					specs[k].NilValue = false
 				}
 			}
 			withHelper := r.Chance(1, 3)
+			for _, sp := range specs {
+				if typ == 6 && sp.UBeh == 7 && sp.Constraint != 1 && !withHelper {
+					w.ClassN("loosely-self-comparing-type-with-partial-difference", 1)
+				}
+				if sp.MBeh == 6 || sp.UBeh == 8 {
+					w.ClassN("non-nil-error-holding-nil-pointer", 1)
+				}
+			}
 			for helper := 0; helper < 6; helper++ {
 				j := c20RunList(w, helper, typ, withHelper && helper%2 == 1, specs)
 				switch j.verdict {
@@ -742,6 +795,8 @@ func runC20(c *rt.Ctx) {
 	c.Require("list-must-fail", 10000)
 	c.Require("list-must-pass", 10000)
 	c.Require("case-by-case-runs", 10000)
+	c.Require("loosely-self-comparing-type-with-partial-difference", 50)
+	c.Require("non-nil-error-holding-nil-pointer", 200)
 	for _, r := range []string{"before hook", "after hook", "missing error", "unmet error predicate", "non-empty result alongside an expected error", "unexpected error", "differing data or value", "type lacks the interface", "errormatch-valid-pattern-nonmatching-nonnil-error"} {
 		c.Require("single-unmet-condition:"+r, 50)
 	}
